@@ -523,6 +523,32 @@ template <class A> static void component_case (vp::Ctx& c)
                 SLOTS (c, "smul/compound", a2, T (cel (a0, i) * sc), "a*=s");
                 A l = sc * a;
                 SLOTS (c, "smul/left", l, T (sc * cel (a0, i)), "s*a");
+                // the scalar argument may be one of the operand's own components (it is passed by value)
+                {
+                    int k  = (int) s.below (N);
+                    T   sk = cel (a0, k);
+                    A   a3 = a0;
+                    a3 *= el (a3, k);
+                    SLOTS (c, "smul/compound-aliased-scalar", a3, T (cel (a0, i) * sk), "a*=a[k]");
+                }
+                // scalar-on-the-left templates take any scalar type S: the product is formed in the common
+                // type of S and T and then converted to T
+                if constexpr (fam == F_COLOR4 || fam == F_SHEAR)
+                {
+                    typedef typename std::conditional<std::is_same<T, double>::value, float, typename std::conditional<std::is_same<T, float>::value, double, float>::type>::type S2;
+                    static const float svals[4] = { 0.5f, 2.5f, 1.25f, 2.0f };
+                    S2                 sv       = (S2) svals[s.below (4)];
+                    A                  af       = gen_agg<A> (s, D_FINITE);
+                    if constexpr (std::is_floating_point<T>::value || IsHalf<T>::value)
+                        if (s.coin ()) sv = -sv;
+                    A lm = sv * af;
+                    for (int i_ = 0; i_ < N; ++i_)
+                    {
+                        T w_ = T (sv * cel (af, i_));
+                        T g_ = cel (lm, i_);
+                        if (!sameT (g_, w_)) VP_FAIL (c, "smul/left-mixed-type", Info<A>::name () << " S*a with S=" << (sizeof (S2) == 8 ? "double" : "float") << ": slot " << i_ << " = " << show (g_) << " expected " << show (w_) << "; a=" << astr (af) << " s=" << (double) sv);
+                    }
+                }
             }
             else
             {
@@ -532,6 +558,16 @@ template <class A> static void component_case (vp::Ctx& c)
                 const A& ref = (a2 /= sc);
                 VP_REQUIRE (c, &ref == &a2, "sdiv/compound-ref", "/= does not return *this");
                 SLOTS (c, "sdiv/compound", a2, T (cel (a0, i) / sc), "a/=s");
+                {
+                    int k  = (int) s.below (N);
+                    T   sk = cel (a0, k);
+                    if (!std::is_integral<T>::value || sk != T (0))
+                    {
+                        A a3 = a0;
+                        a3 /= el (a3, k);
+                        SLOTS (c, "sdiv/compound-aliased-scalar", a3, T (cel (a0, i) / sk), "a/=a[k]");
+                    }
+                }
             }
             break;
         }
